@@ -461,7 +461,7 @@ func prepareCall(fr *frame, call *ssa.CallCommon) (fn value, args []value) {
 		// Interface method invocation.
 		recv := v.(iface)
 		if recv.t == nil {
-			panic("method invoked on nil interface")
+			panic(runtimeError("invalid memory address or nil pointer dereference (method invoked on nil interface)"))
 		}
 		if f := lookupMethod(fr.i, recv.t, call.Method); f == nil {
 			// Unreachable in well-typed programs.
@@ -484,7 +484,7 @@ func call(i *interpreter, caller *frame, callpos token.Pos, fn value, args []val
 	switch fn := fn.(type) {
 	case *ssa.Function:
 		if fn == nil {
-			panic("call of nil function") // nil of func type
+			panic(runtimeError("invalid memory address or nil pointer dereference (call of nil function)"))
 		}
 		return callSSA(i, caller, callpos, fn, args, nil)
 	case *closure:
@@ -524,6 +524,11 @@ func callSSA(i *interpreter, caller *frame, callpos token.Pos, fn *ssa.Function,
 	if caller != nil {
 		fr.guard = caller.guard
 		fr.g = caller.g
+		if fr.guard != nil && !i.pureFn(fn) {
+			if _, isIntr := stdIntrinsics[fn.String()]; !isIntr {
+				panic(regionAbort{"impure callee " + fn.String()})
+			}
+		}
 	} else {
 		fr.g = i.gstate
 	}
